@@ -472,7 +472,14 @@ func (a *Act) inlineN(res ssa.Value, instr ssa.Instruction, fn *ssa.Function, ar
 	sub.env = nil
 	sub.unrollN = unroll
 	if unroll == 0 && hasLoops(fn) {
-		panic(contractError{fmt.Sprintf("inlines %s: the function has loops, an unroll count is needed", shortFn(fn))})
+		// loops of a callee executed in place are cut by the loop invariants of the callee's own contract (proved again in
+		// this context); its entry "let"s are evaluated at the call
+		lct := g.eng.contractFor(fn)
+		if lct == nil || len(lct.Loops) == 0 {
+			panic(contractError{fmt.Sprintf("inlines %s: the function has loops: an unroll count or loop invariants in its contract are needed", shortFn(fn))})
+		}
+		sub.ct = lct
+		sub.letsAtEntry = true
 	}
 	sub.runWithFree(args, freeVars, st, reach)
 	if len(sub.rets) == 0 {
